@@ -190,8 +190,6 @@ Proof.
     - intros k. apply sync_at_same with (s := s); try reflexivity. apply B.
     - destruct C. constructor; sp; try assumption.
       + intros j J. rewrite NRW in J. discriminate.
-      + rewrite S2. assumption.
-      + rewrite S2. assumption.
       + intros Q. rewrite AR in Q. discriminate.
       + destruct dy_tfd as [T|(T & v & V1 & V2)]; [left; assumption|right]. split; [assumption|].
         destruct (S7 _ v V1) as (v' & Q1 & Q2 & _). exists v'. split; congruence.
